@@ -91,6 +91,9 @@ pub struct Sim {
     pub rogue: std::collections::BTreeSet<u64>,
     /// the ready channel has a permanent id different from its initial id
     pub perm: bool,
+    /// the funding transaction of the ready channel (ops `blkt f` / `blkt c`: its confirmation and the spend of its
+    /// channel outpoint, the on-chain end of life of the channel)
+    pub funding_tx: Option<Transaction>,
     /// what the node writes through: `persister` itself, or the composite in `world backup`
     pub node_persister: Arc<dyn Persist>,
     /// `world backup`: the main side of the composite
@@ -287,8 +290,11 @@ impl Sim {
             }
             node_persister.update_tracker(&node_ctx.node.get_id(), &tracker).unwrap();
         }
+        let mut funding_tx: Option<Transaction> = None;
         let chan_ctx = if !perm && !fresh {
-            fund_test_channel(&node_ctx, CHANNEL_VALUE)
+            let c = fund_test_channel(&node_ctx, CHANNEL_VALUE);
+            funding_tx = rebuild_funding_tx(&node_ctx, &c);
+            c
         } else {
             // fund_test_channel, but setup_channel gets a permanent id different from id0
             let incoming = CHANNEL_VALUE + 2_000_000;
@@ -309,6 +315,7 @@ impl Sim {
             let ndx = tx_ctx.add_channel_outpoint(&node_ctx, &chan_ctx, CHANNEL_VALUE);
             let tx = tx_ctx.to_tx();
             chan_ctx.setup.funding_outpoint = lightning_signer::bitcoin::OutPoint { txid: tx.compute_txid(), vout: ndx };
+            funding_tx = Some(tx.clone());
             let perm_id = if perm { Some(ChannelId::new(&[0xabu8; 32])) } else { None };
             if !stubworld {
                 node_ctx.node.setup_channel(chan_ctx.channel_id.clone(), perm_id, chan_ctx.setup.clone(), &DerivationPath::master()).expect("setup_channel");
@@ -345,6 +352,7 @@ impl Sim {
             last_pre_commit: BTreeMap::new(),
             rogue: Default::default(),
             perm,
+            funding_tx,
             node_persister,
             main,
             fail_store,
@@ -978,6 +986,53 @@ impl Sim {
     }
 
     /// connect `n` good blocks in one request (fills the remembered-header window)
+    /// `blkt f`: a block that confirms the funding transaction of the ready channel; `blkt c`: a block with a
+    /// transaction that spends the channel's funding outpoint and is not a commitment transaction (for the monitor: a
+    /// mutual close).  With MIN_DEPTH blocks on top and `forget`, the next heartbeat prunes the READY channel.
+    pub fn add_block_with(&mut self, kind: &str) -> (Outcome, usize) {
+        use lightning_signer::bitcoin::consensus::serialize;
+        use lightning_signer::bitcoin::{Amount, Sequence, TxIn, Witness};
+        use lightning_signer::txoo::proof::ProofType;
+        let tx = match (kind, self.funding_tx.clone()) {
+            ("f", Some(t)) => t,
+            ("c", _) => Transaction {
+                version: Version::TWO,
+                lock_time: LockTime::ZERO,
+                input: vec![TxIn { previous_output: self.chan_ctx.setup.funding_outpoint, script_sig: ScriptBuf::new(), sequence: Sequence::MAX, witness: Witness::new() }],
+                output: vec![TxOut { value: Amount::from_sat(CHANNEL_VALUE - 1000), script_pubkey: ScriptBuf::from_bytes(vec![0x00, 0x14, 7, 7, 7, 7, 7, 7, 7, 7, 7, 7, 7, 7, 7, 7, 7, 7, 7, 7, 7, 7]) }],
+            },
+            _ => return self.txn(|_| -> Result<(), Status> { Err(Status::invalid_argument("no-funding-tx")) }),
+        };
+        self.txn(|s| {
+            let node = s.node();
+            let mut tracker = node.get_tracker();
+            let tip = tracker.tip().clone();
+            let h = tracker.height();
+            let block = make_block(tip.0, vec![tx]);
+            let proof = TxoProof::prove_unchecked(&block, &tip.1, h + 1);
+            // as the front end does: compact proof, or the streamed block when the compact filter has a false positive
+            let secp = Secp256k1::new();
+            let watches = tracker.get_all_forward_watches().1;
+            let zero = tip.1.to_byte_array().iter().all(|x| *x == 0);
+            let fp = !zero && proof.verify(h + 1, &block.header, None, &tip.1, &watches, &secp).is_err();
+            let r = if fp {
+                let ext = TxoProof { attestations: proof.attestations.clone(), proof: ProofType::ExternalBlock() };
+                tracker.block_chunk(block.block_hash(), 0, &serialize(&block)).map_err(|e| Status::internal(format!("{:?}", e)))?;
+                tracker.add_block(block.header, ext)
+            } else {
+                tracker.add_block(block.header, proof)
+            };
+            match r {
+                Ok(_) => {
+                    node.get_persister().update_tracker(&node.get_id(), &tracker).unwrap();
+                    s.prev_tips.push(tip);
+                    Ok(())
+                }
+                Err(e) => Err(Status::invalid_argument(format!("{:?}", e).split('(').next().unwrap_or("tracker").to_string())),
+            }
+        })
+    }
+
     pub fn add_blocks(&mut self, n: u64) -> (Outcome, usize) {
         self.txn(|s| {
             let node = s.node();
@@ -1226,6 +1281,19 @@ pub fn diff_views(a: &BTreeMap<String, String>, b: &BTreeMap<String, String>) ->
 }
 
 /// Execute one op line; returns (outcome, pending mutations reported by prepare()).
+/// the funding transaction `fund_test_channel` built (same recipe; the txid does not cover witnesses), if it is the one
+/// the channel's funding outpoint names
+fn rebuild_funding_tx(node_ctx: &TestNodeContext, chan_ctx: &TestChannelContext) -> Option<Transaction> {
+    let incoming = CHANNEL_VALUE + 2_000_000;
+    let change = incoming - CHANNEL_VALUE - 1000;
+    let mut tx_ctx = TestFundingTxContext::new();
+    tx_ctx.add_wallet_input(node_ctx, SpendType::P2wpkh, 1, incoming);
+    tx_ctx.add_wallet_output(node_ctx, SpendType::P2wpkh, 1, change);
+    tx_ctx.add_channel_outpoint(node_ctx, chan_ctx, CHANNEL_VALUE);
+    let tx = tx_ctx.to_tx();
+    if tx.compute_txid() == chan_ctx.setup.funding_outpoint.txid { Some(tx) } else { None }
+}
+
 pub fn exec_op(sim: &mut Sim, op: &str) -> (Outcome, usize) {
     // `failw <s|m> <request…>`: the request runs while every write to the store (s) or to the main store of
     // the composite (m) fails.  Only meaningful as the last op of a case: a signer whose store failed stops.
@@ -1279,6 +1347,7 @@ pub fn exec_op(sim: &mut Sim, op: &str) -> (Outcome, usize) {
         ["blk+", g] => sim.add_block(*g == "g"),
         ["HBLK+", g] => sim.handler_add_block(*g == "g"),
         ["blkn", n] => sim.add_blocks(num(n) as u64),
+        ["blkt", k] => sim.add_block_with(k),
         ["blk-", g] => sim.remove_block(*g == "g"),
         ["restart"] => sim.restart(),
         // the clock moves on (keysends expire after 60 s, invoices a day after their expiry: the next heartbeat prunes
